@@ -878,6 +878,8 @@ struct Plan {
     zrtt: Option<ZrttPlan>,
     /// this case is a quiescent single-event case (replaces the generic workload; harness/src/asyncsim/qev.rs)
     qev: Option<qev::QevPlan>,
+    /// this case belongs to one of the round-4 families (replaces the generic workload; harness/src/asyncsim/x4.rs)
+    x4: Option<x4::X4Plan>,
 }
 
 /// what is done, after the handshake, with the SendStream handle of an early (0-RTT) stream that the server
@@ -1056,6 +1058,7 @@ fn gen_plan(rng: &mut Rng) -> Plan {
         extra_connects: 0,
         zrtt: None,
         qev: None,
+        x4: None,
     };
     // ---- about a third of the cases: 2-3 CONCURRENT waiter tasks on the same condition, for every wait of the
     // API that goes through a shared Notify; the peer satisfies the condition one unit at a time, with pauses, so
@@ -1412,6 +1415,18 @@ macro_rules! cancelable {
         }
     }};
 }
+
+// round-4 plan families (additional cases with their own ids and generator streams): argument boundaries of the
+// data-moving calls, stale 0-RTT handles against the streams that reuse their ids, endpoint end-of-life orders
+// (declared here: they use the `cancelable!` macro defined above)
+#[path = "../asyncsim/ab.rs"]
+mod ab;
+#[path = "../asyncsim/eol.rs"]
+mod eol;
+#[path = "../asyncsim/stale.rs"]
+mod stale;
+#[path = "../asyncsim/x4.rs"]
+mod x4;
 
 // ------------------------------------------------------------------------------------------------
 // application tasks
@@ -2688,11 +2703,13 @@ fn run_case(seed: u64, case: u64) -> CaseOut {
     let mut rng = Rng::new(cseed);
     let mut plan = gen_plan(&mut rng);
     // an eighth of the cases: quiescent single-event plans (own generator stream: the other cases keep their plans)
-    if case % 8 == 5 {
+    if case % 8 == 5 && x4::family(case).is_none() {
         let mut qrng = Rng::new(cseed ^ 0x9e5_c18);
         let q = qev::gen_qev(&mut qrng);
         qev::apply(&mut plan, q);
     }
+    // round-4 families: additional case ids (>= 1_000_000), own generator streams
+    x4::apply(&mut plan, cseed, case);
     let plan = Arc::new(plan);
     let addrs: [SocketAddr; 2] = ["127.0.0.1:50001".parse().unwrap(), "127.0.0.1:4433".parse().unwrap()];
     let world = World(Arc::new(Mutex::new(WorldInner {
@@ -2749,7 +2766,10 @@ fn run_case(seed: u64, case: u64) -> CaseOut {
     {
         let mut root = Ctx { w: world.clone(), tw: TaskWaker::new(Class::Job), log: log.clone(), h: hs.clone(), rng: Rng::new(rng.next()), plan: plan.clone() };
         let (e1, e2) = (epc.clone(), eps.clone());
-        if let Some(z) = plan.zrtt.as_ref() {
+        if plan.x4.is_some() {
+            let scfg2 = server_config(cseed ^ 0x99, transport(&plan.tc[SERVER]), &clock);
+            x4::spawn_roots(&mut root, &plan, e1, e2.clone(), ccfg, addrs[SERVER], scfg2);
+        } else if let Some(z) = plan.zrtt.as_ref() {
             // a server config with FRESH TLS state (new ticket keys): installed between the two connections
             let scfg2 = if z.reject { Some(server_config(cseed ^ 0x99, transport(&plan.tc[SERVER]), &clock)) } else { None };
             root.spawn("app:client:main0".into(), Class::Job, move |c| zrtt_client_main(c, e1, ccfg, addrs[SERVER], scfg2));
@@ -3293,7 +3313,10 @@ fn run_case(seed: u64, case: u64) -> CaseOut {
     if plan.zrtt.is_some() {
         *c.entry("zrtt:cases".into()).or_default() += 1;
     }
-    let nontrivial = l.connected[0] && l.connected[1] && l.cancels > 0 && ex.polls_pending > 0;
+    if let Some(f) = x4::family(case) {
+        *c.entry(format!("x4:{f}:cases")).or_default() += 1;
+    }
+    let nontrivial = (l.connected[0] && l.connected[1] && l.cancels > 0 && ex.polls_pending > 0) || c.keys().any(|k| k.ends_with(":script-completed"));
     let sample = format!(
         "case {case}:{} close={:?} mid={:?} policy={:?} loss={}% tasks={} steps={} vtime={}ms jobs={} bytes={} cancels={} dgrams={}/{} closed=[{:?},{:?}] fails={}",
         if plan.multi { " multi-waiter" } else { "" }, plan.close, plan.mid, plan.policy, plan.net.loss_pct, ex.tasks.len(), ex.steps, (world.now() - SEC) / MS, jobs_done, bytes, l.cancels,
@@ -3336,12 +3359,16 @@ fn main() {
     let (mut polls, mut nontrivial) = (0u64, 0u64);
     let only: Option<u64> = env::var("ASYNCSIM_CASE").ok().and_then(|x| x.parse().ok());
     let mut per_key: BTreeMap<String, u32> = BTreeMap::new();
-    for case in 0..n {
+    // ASYNCSIM_ONLY=ab|stale|eol|base: a run of one family only (harness/src/asyncsim/x4.rs)
+    let family = env::var("ASYNCSIM_ONLY").ok();
+    let ids = x4::cases(n, family.as_deref());
+    let first = ids.first().copied();
+    for case in ids {
         if only.is_some_and(|c| c != case) {
             continue;
         }
         let o = run_case(seed, case);
-        if case == 0 {
+        if Some(case) == first {
             // determinism self-check: the same case again must take exactly the same schedule
             let o2 = run_case(seed, case);
             if o2.sig != o.sig {
